@@ -547,7 +547,15 @@ class SInt:
             return NotImplemented
         if o < 0:
             raise ValueError('negative shift count')
-        return self * (1 << o)
+        W = cur().W
+        if o >= W:
+            if cur().feasible(self.e != 0):
+                raise BoundExceeded('shift by %d exceeds width %d' % (o, W))
+            return 0
+        lo = None if self.lo is None else self.lo << o
+        hi = None if self.hi is None else self.hi << o
+        sh = self.e << o
+        return self._fit(sh, lo, hi, (sh >> o) == self.e)
 
     def __rlshift__(self, o):
         k = self.__index__()
@@ -688,15 +696,20 @@ class SRatio:
 
 
 def s_bit_length(x):
-    """bit_length of |x| as SInt (no fork): number of bits needed."""
+    """bit_length of |x| as int/SInt (no fork)"""
     if isinstance(x, int):
         return x.bit_length()
+    if x.lo is not None and x.hi is not None and (x.lo >= 0 or x.hi <= 0) and abs(x.lo).bit_length() == abs(x.hi).bit_length():
+        return abs(x.lo).bit_length()
     W = cur().W
     a = z3.If(x.e < 0, -x.e, x.e)
+    hi = W - 1
+    if x.lo is not None and x.hi is not None:
+        hi = min(hi, max(abs(x.lo), abs(x.hi)).bit_length())
     res = z3.BitVecVal(0, W)
-    for k in range(W - 1):
+    for k in range(hi):
         res = z3.If(z3.Extract(k, k, a) == 1, z3.BitVecVal(k + 1, W), res)
-    return mkint(res, 0, W - 1)
+    return mkint(res, 0, hi)
 
 
 def fresh_int(name, lo, hi):
